@@ -128,32 +128,35 @@ def Change.undoOn (S : Segmenter) (U : UData) (ch : Change) (lb : LB) : Except P
     | .ok (_, lb', _) => .ok lb'
     | .error e => .error e
 
-/-- `Changeset::undo(line, n)`; `wfb` is the signed `waiting_for_begin` counter -/
+/-- `Changeset::undo(line, n)`; `wfb` is the `waiting_for_begin` counter (pending `End` markers),
+    `level` is `undo_group_level`: a `Begin` popped while no `End` is pending is the marker of a group
+    that is still open (Undo requested inside it), the group is gone and the level is lowered -/
 def Changeset.undoLoop (S : Segmenter) (U : UData) (n : Nat) :
-    List Change → List Change → LB → Int → Nat → Bool → Except Panic (List Change × List Change × LB × Bool)
-  | [], redos, lb, _, _, undone => .ok ([], redos, lb, undone)
-  | ch :: rest, redos, lb, wfb, count, undone =>
-    let step : Except Panic (LB × Int × Bool) :=
+    List Change → List Change → LB → Int → Nat → Bool → Nat →
+      Except Panic (List Change × List Change × LB × Bool × Nat)
+  | [], redos, lb, _, _, undone, level => .ok ([], redos, lb, undone, level)
+  | ch :: rest, redos, lb, wfb, count, undone, level =>
+    let step : Except Panic (LB × Int × Bool × Nat) :=
       match ch with
-      | .begin => .ok (lb, wfb - 1, undone)
-      | .end_ => .ok (lb, wfb + 1, undone)
+      | .begin => if 0 < wfb then .ok (lb, wfb - 1, undone, level) else .ok (lb, wfb, undone, level - 1)
+      | .end_ => .ok (lb, wfb + 1, undone, level)
       | _ => match ch.undoOn S U lb with
-             | .ok lb' => .ok (lb', wfb, true)
+             | .ok lb' => .ok (lb', wfb, true, level)
              | .error e => .error e
     match step with
     | .error e => .error e
-    | .ok (lb', wfb', undone') =>
+    | .ok (lb', wfb', undone', level') =>
       let redos' := ch :: redos
       if wfb' ≤ 0 then
         let count' := count + 1
-        if count' ≥ n then .ok (rest, redos', lb', undone')
-        else Changeset.undoLoop S U n rest redos' lb' wfb' count' undone'
-      else Changeset.undoLoop S U n rest redos' lb' wfb' count undone'
+        if count' ≥ n then .ok (rest, redos', lb', undone', level')
+        else Changeset.undoLoop S U n rest redos' lb' wfb' count' undone' level'
+      else Changeset.undoLoop S U n rest redos' lb' wfb' count undone' level'
 
 def Changeset.undo (S : Segmenter) (U : UData) (c : Changeset) (lb : LB) (n : Nat) :
     Except Panic (Changeset × LB × Bool) :=
-  match Changeset.undoLoop S U n c.undos c.redos lb 0 0 false with
-  | .ok (us, rs, lb', undone) => .ok ({ c with undos := us, redos := rs }, lb', undone)
+  match Changeset.undoLoop S U n c.undos c.redos lb 0 0 false c.level with
+  | .ok (us, rs, lb', undone, level) => .ok ({ level := level, undos := us, redos := rs }, lb', undone)
   | .error e => .error e
 
 end Rl
